@@ -4,6 +4,7 @@ package main
 // over the engine's heap graph, typed so that ignored fields can be skipped.
 
 import (
+	"strings"
 	"go/types"
 
 	"golang.org/x/tools/go/ssa"
@@ -25,6 +26,14 @@ func structOf(t types.Type) (*types.Struct, types.Type) {
 func (in *Interp) deepEqT(t types.Type, x, y value, ign []*ignoreSpec, depth int) value {
 	if depth > 60 {
 		in.unsupported("deepEqT recursion too deep")
+	}
+	// go-cmp: "if the values have an Equal method of the form (T) Equal(T) bool, use the result of x.Equal(y)" - the
+	// real method of the code under test is called (only for gribigo's own types, when cmp.Equal is being modelled)
+	if in.cmpEqualMethods && depth > 0 {
+		if m := in.equalMethodOf(t); m != nil {
+			r := in.call(in.curFr, 0, m, []value{x, y})
+			return r
+		}
 	}
 	switch u := t.Underlying().(type) {
 	case *types.Pointer:
@@ -138,7 +147,12 @@ func init() {
 		if !types.Identical(x.t, y.t) {
 			return false
 		}
-		return fr.in.deepEqT(x.t, x.v, y.v, ign, 0)
+		saved := fr.in.cmpEqualMethods
+		fr.in.cmpEqualMethods = true
+		fr.in.curFr = fr
+		r := fr.in.deepEqT(x.t, x.v, y.v, ign, 0)
+		fr.in.cmpEqualMethods = saved
+		return r
 	}
 	externTable["github.com/google/go-cmp/cmp.Equal"] = func(fr *frame, fn *ssa.Function, a []value) value { return cmpEq(fr, a) }
 	externTable["github.com/google/go-cmp/cmp.Diff"] = func(fr *frame, fn *ssa.Function, a []value) value {
@@ -394,4 +408,33 @@ func init() {
 		var cell value = sv
 		return tuple{&cell, iface{}}
 	}
+}
+
+// equalMethodOf: the (T) Equal(T) bool method of a gribigo type, if it has one.
+func (in *Interp) equalMethodOf(t types.Type) *ssa.Function {
+	var named *types.Named
+	switch tt := t.(type) {
+	case *types.Named:
+		named = tt
+	case *types.Pointer:
+		if n, ok := tt.Elem().(*types.Named); ok {
+			named = n
+		}
+	}
+	if named == nil || named.Obj().Pkg() == nil || !strings.HasPrefix(named.Obj().Pkg().Path(), "github.com/openconfig/gribigo") {
+		return nil
+	}
+	ms := in.prog.MethodSets.MethodSet(t)
+	sel := ms.Lookup(named.Obj().Pkg(), "Equal")
+	if sel == nil {
+		return nil
+	}
+	sig, ok := sel.Type().(*types.Signature)
+	if !ok || sig.Params().Len() != 1 || sig.Results().Len() != 1 || !types.Identical(sig.Params().At(0).Type(), t) {
+		return nil
+	}
+	if b, ok := sig.Results().At(0).Type().Underlying().(*types.Basic); !ok || b.Kind() != types.Bool {
+		return nil
+	}
+	return in.prog.MethodValue(sel)
 }
